@@ -4,12 +4,15 @@ CONSTANTS
   Keys = {"a", "b"}
   FixUnique = TRUE
   FixProto = TRUE
-  FixRollback = TRUE
   FixSetter = TRUE
+  FixRollback = TRUE
   H = 3
   CatSel = {1, 2, 3, 4, 5, 6, 7, 8, 9, 10, 11}
   Wide = FALSE
 INVARIANT TypeOK
+INVARIANT NoClobber
 INVARIANT Transparent
 INVARIANT ShapeDenotes
+INVARIANT Refines
+INVARIANT TraceEqual
 CHECK_DEADLOCK FALSE
